@@ -719,7 +719,10 @@ def part_generated(chk, drv, st, dialects, wsgi_every):
         if "sql" not in a:
             raise Infra("model driver error: " + str(a.get("error")))
         if chk.tier == "thorough":
-            ds = dialects if not name.startswith("script") else dialects[:2]
+            # ansi + two of the other dialects, rotating over the inputs (scripts: ansi + one)
+            o = dialects[1:]
+            k = (ci + chk.seed) % len(o)
+            ds = [dialects[0], o[k]] + ([o[(k + 1) % len(o)]] if not name.startswith("script") else [])
         else:
             # quick: ansi + one of the other dialects, rotating over the inputs
             ds = [dialects[0], dialects[1 + (ci + chk.seed) % (len(dialects) - 1)]]
@@ -1062,7 +1065,7 @@ def run(chk):
              "dialect and the legacy parser) + data/tpcds/*.sql (quick: a third of them, rotating with the seed); generated = "
              "export-specific shapes (owners printing alike, shared owners, bare columns named like owners, CTEs, DDL/drop/rename "
              "scripts, metadata) + gensql.enumerate_shapes (a third / a sixth, rotating) + seeded random statements and 2-4 statement "
-             "scripts, under the listed dialects (quick: ansi + one other dialect per input, rotating); a share of all inputs goes through POST /lineage; direct = io.to_cytoscape on "
+             "scripts, under ansi + one (quick) / two (thorough) of the other listed dialects per input, rotating; a share of all inputs goes through POST /lineage; direct = io.to_cytoscape on "
              "hand-made graphs in every node order. Each result: structural oracle on the implementation alone + exact "
              "comparison of both exports and the summary with the model run on the implementation's own graph; generated inputs also "
              "end to end; hand-made graphs: exact comparison. non-trivial = the export has at least one edge; distinct by (route, SQL, "
